@@ -11,3 +11,7 @@ Lemma znth_lit1 {A} (l : list A) d : 2 <= length l -> znth l 1 = GOk (nth 1 l d)
 Proof. intros H. exact (znth_nat l 1 d H). Qed.
 Lemma znth_lit2 {A} (l : list A) d : 3 <= length l -> znth l 2 = GOk (nth 2 l d).
 Proof. intros H. exact (znth_nat l 2 d H). Qed.
+
+(* range(1, n) *)
+Lemma zrange_1_of_nat (n : nat) : zrange 1 (Z.of_nat n) 1 = map Z.of_nat (seq 1 (n - 1)).
+Proof. change 1%Z with (Z.of_nat 1) at 1. apply zrange_nat. Qed.
